@@ -19,6 +19,10 @@ Lemma ptr_eqb_refl p : ptr_eqb p p = true.
 Proof. destruct p as [i|]; cbn; [apply Pos.eqb_refl|reflexivity]. Qed.
 Lemma ptr_eqb_some_neq i j : i <> j -> ptr_eqb (Some i) (Some j) = false.
 Proof. intro Hne. cbn. apply Pos.eqb_neq. exact Hne. Qed.
+Lemma ptr_eqb_some_none i : ptr_eqb (Some i) None = false.
+Proof. reflexivity. Qed.
+Lemma ptr_eqb_none_some i : ptr_eqb None (Some i) = false.
+Proof. reflexivity. Qed.
 Lemma ptr_eqb_eq p q : ptr_eqb p q = true -> p = q.
 Proof. destruct p as [i|], q as [j|]; cbn; intro H; try discriminate; [apply Pos.eqb_eq in H; congruence|reflexivity]. Qed.
 
@@ -245,6 +249,8 @@ Ltac hsimp :=
             | rewrite (hgso h i j n) by neq ]
   | H : hget ?h ?i = Some _ |- context[hget ?h ?i] => rewrite H
   | |- context[ptr_eqb ?p ?p] => rewrite (ptr_eqb_refl p)
+  | |- context[ptr_eqb (Some ?i) None] => rewrite (ptr_eqb_some_none i)
+  | |- context[ptr_eqb None (Some ?i)] => rewrite (ptr_eqb_none_some i)
   | |- context[Pos.eqb ?p ?p] => rewrite (Pos.eqb_refl p)
   | |- context[ptr_eqb (Some ?i) (Some ?j)] => rewrite (ptr_eqb_some_neq i j) by neq
   | |- context[Pos.eqb ?i ?j] => rewrite (proj2 (Pos.eqb_neq i j)) by neq
@@ -260,8 +266,8 @@ Ltac mstep :=
        ncol nkey nval nleft nright npar with_col with_key with_val with_left with_right with_par];
   hsimp.
 Ltac mrun := repeat (progress mstep).
-Ltac irep_frame := repeat (apply irep_hset_other; [assumption|]); assumption.
-Ltac ictx_frame := repeat (apply ictx_hset_other; [assumption|]); assumption.
+Ltac irep_frame := solve [repeat first [assumption | apply irep_hset_other; [assumption|]]].
+Ltac ictx_frame := solve [repeat first [assumption | apply ictx_hset_other; [assumption|]]].
 Ltac fin := try reflexivity; try assumption; first [ irep_frame | ictx_frame | solve [nd_goal] | idtac ].
 Ltac dands := repeat match goal with H : _ /\ _ |- _ => destruct H end.
 
@@ -337,7 +343,27 @@ Proof. intros H x; specialize (H x); tauto. Qed.
 Lemma same_trans l1 l2 l3 : same l1 l2 -> same l2 l3 -> same l1 l3.
 Proof. intros H1 H2 x; specialize (H1 x); specialize (H2 x); tauto. Qed.
 (* proves [same] between explicit list expressions *)
-Ltac same_tac := intro; cbn [In ids phs cids cphs fsib fid app iplug1]; repeat first [rewrite in_app_iff | progress cbn [In]]; tauto.
+Ltac in_solve :=
+  match goal with
+  | H : ?P |- ?P => exact H
+  | |- _ \/ _ => first [left; in_solve | right; in_solve]
+  end.
+Ltac same_tac :=
+  let Hs := fresh "Hs" in
+  intro; cbn [In ids phs cids cphs fsib fid app iplug1]; repeat first [rewrite in_app_iff | progress cbn [In]];
+  split; intro Hs; repeat (destruct Hs as [Hs|Hs]); try contradiction; in_solve.
+
+(* [same] goals that follow from one [same] hypothesis H about sub-lists *)
+Ltac same_via H :=
+  let j := fresh "j" in let H1 := fresh "H1" in let H2 := fresh "H2" in let Hs := fresh "Hs" in let K := fresh "K" in
+  intro j; specialize (H j);
+  cbn [In ids phs cids cphs fsib fid app iplug1] in H |- *;
+  repeat first [rewrite in_app_iff in H | progress cbn [In] in H];
+  repeat first [rewrite in_app_iff | progress cbn [In]];
+  destruct H as [H1 H2]; split; intro Hs; repeat (destruct Hs as [Hs|Hs]); try contradiction;
+  first [ in_solve
+        | assert (K := H1 ltac:(in_solve)); repeat (destruct K as [K|K]); try contradiction; in_solve
+        | assert (K := H2 ltac:(in_solve)); repeat (destruct K as [K|K]); try contradiction; in_solve ].
 
 Lemma ids_iplug ctx t : same (ids (iplug ctx t)) (ids t ++ cids ctx).
 Proof.
